@@ -106,8 +106,56 @@ def not_identity(steps):
             n = re.sub(r'<.*$', '', inner.split(' as ', 1)[1]) + '::' + meth
         if k == 'call' and (n.endswith(IDENTITY_CALLS) or '::{closure#' in n):
             continue
+        if k == 'call' and n.startswith('deadpool_redis::') and n.endswith('::from'):
+            continue          # a From impl of this crate between the two families of description types: checked on its own (R19.2)
         bad.append('%s %s (line %s)' % (k, n, line))
     return sorted(set(bad))
+
+
+TIMEOUTS_T = 'deadpool::managed::config::Timeouts'
+QMODE_T = 'deadpool::managed::config::QueueMode'
+
+
+def ret_signature(prog, path, depth=0):
+    """what a constructor-like function of the crate returns, as far as the defaults are concerned: ('Timeouts', (field values..))
+    with 'None' for an absent timeout, ('QueueMode', variant) - followed through calls of other such functions; None = not understood"""
+    b = prog.bodies.get(path)
+    if b is None or depth > 4:
+        return None
+    an = prog.an(b)
+    sigs = set()
+    for blk in b.blocks:
+        if blk.cleanup:
+            continue
+        for s in blk.stmts:
+            if s.kind == 'assign' and s.rv.kind == 'agg' and s.rv.j.get('ak') == 'adt' and s.rv.j.get('adt') in (TIMEOUTS_T, QMODE_T):
+                if s.rv.j['adt'] == QMODE_T:
+                    sigs.add(('QueueMode', s.rv.j['variant']))
+                else:
+                    sigs.add(('Timeouts', tuple('None' if 'None' in an.resolve_operand(o) else '?' for o in s.rv.ops)))
+        t = blk.term
+        if t.kind == 'call' and t.rcallee in prog.bodies and t.rcallee != path and t.dest is not None and t.dest.is_local():
+            ty = b.locals[t.dest.local]['ty']
+            if ty in (TIMEOUTS_T, QMODE_T):
+                sigs.add(ret_signature(prog, t.rcallee, depth + 1))
+    return list(sigs)[0] if len(sigs) == 1 else None
+
+
+def operand_signature(prog, b, an, op):
+    """signature of the value in an operand: built here, or returned by a function of the crate"""
+    out = set()
+    for x in sources(an, op):
+        if x[0] == 'agg' and x[1].startswith(QMODE_T + '::'):
+            out.add(('QueueMode', x[1].split('::')[-1]))
+        elif x[0] == 'agg' and x[1].startswith(TIMEOUTS_T):
+            st = [s for s in b.blocks[x[2]].stmts if s.kind == 'assign' and s.rv.kind == 'agg' and s.rv.j.get('adt') == TIMEOUTS_T]
+            out.add(('Timeouts', tuple('None' if 'None' in an.resolve_operand(o) else '?' for o in st[0].rv.ops)) if st else None)
+        elif x[0] == 'call':
+            t = b.blocks[x[2]].term
+            out.add(ret_signature(prog, t.rcallee) if t.rcallee in prog.bodies else None)
+        elif x[0] in ('arg', 'field', 'upvar', 'unknown', 'const'):
+            out.add(None)
+    return list(out)[0] if len(out) == 1 else None
 
 
 def run(ctx):
@@ -123,43 +171,77 @@ def run(ctx):
             ctx.undecide('R19.1', '%s not found' % bname); continue
         ctx.saw(b)
         an = prog.an(b)
-        tup = None
+        # decision table over (url named?, connection named?) by abstract evaluation (dprules/abseval.py): whatever the tests are
+        # written as - a match on the pair, is_some() tests, if-let chains, `connection.cloned().unwrap_or_default()`
+        from .abseval import Eval
+        fuq = '%s.%s' % (cfg, fu); fcq = '%s.%s' % (cfg, fc)
+        # the options tested must be the options given: nothing that can turn a present value into an absent one on the way
         for blk in b.blocks:
-            for s in blk.stmts:
-                if s.kind == 'assign' and s.rv.kind == 'agg' and s.rv.j['ak'] == 'tuple' and len(s.rv.ops) == 2 and s.place.is_local():
-                    s0 = sources(an, s.rv.ops[0], deep=True); s1 = sources(an, s.rv.ops[1], deep=True)
-                    f0 = {x[1] for x in s0 if x[0] == 'field'}; f1 = {x[1] for x in s1 if x[0] == 'field'}
-                    filt = sorted({x[1] for x in s0 | s1 if x[0] == 'call' and x[1].split('::')[-1] in ('filter', 'and_then', 'take_if', 'map', 'or', 'xor', 'zip')})
-                    if ('%s.%s' % (cfg, fu) in f0 | f1) and filt:
-                        ctx.ob('R19.1', '%s: presence of url / connection is tested as given' % tag, False, ctx.where(b, s.line),
-                               'the matched options pass through %s first: a value that is present can be treated as absent (or vice versa)' % filt, construct='%s:presence-altered' % tag)
-                    if '%s.%s' % (cfg, fu) in f0 and '%s.%s' % (cfg, fc) in f1:
-                        tup = (s.place.local, '0', '1')
-                    elif '%s.%s' % (cfg, fu) in f1 and '%s.%s' % (cfg, fc) in f0:
-                        tup = (s.place.local, '1', '0')
-        if tup is None:
-            ctx.undecide('R19.1', '%s: (url, connection) match not found' % tag); continue
-        tl, iu, ic = tup
+            t_ = blk.term
+            ops_ = []
+            if t_.kind == 'switch' and not blk.cleanup and t_.j.get('adt') == 'std::option::Option' and 'on' in t_.j:
+                ops_.append(Operand({'c': t_.j['on']}))
+            if t_.kind == 'call' and not blk.cleanup and t_.args and any(n.endswith('Option::is_some') or n.endswith('Option::is_none') or n.endswith('Option::<T>::is_some') or n.endswith('Option::<T>::is_none') for n in t_.callee_names()):
+                ops_.append(t_.args[0])
+            for o_ in ops_:
+                ds_ = sources(an, o_, deep=True)
+                if any(x[0] == 'field' and x[1] in (fuq, fcq) for x in ds_):
+                    # (every call on the way, including the ones the origin analysis looks through)
+                    steps_ = calls_on_the_way(an, Operand({'c': {'l': o_.place.local, 'pr': [], 'own': []}}) if o_.kind != 'const' else o_)
+                    filt = sorted({x[1] for x in steps_ if x[0] == 'call' and x[1].split('::')[-1] in ('filter', 'and_then', 'take_if', 'or', 'xor', 'zip', 'and', 'then_some', 'then')})
+                    if filt:
+                        ctx.ob('R19.1', '%s: presence of url / connection is tested as given' % tag, False, ctx.where(b, t_.line),
+                               'the tested option passes through %s first: a value that is present can be treated as absent (or vice versa)' % filt, construct='%s:presence-altered' % tag)
+        def make_leaf(vu, vc):
+            def leaf(op, origins):
+                fl = {x[1] for x in origins if x[0] == 'field' and x[1].startswith(cfg + '.')}
+                if fl == {fuq}:
+                    return ('Some', None) if vu == 'Some' else 'None'
+                if fl == {fcq}:
+                    return ('Some', None) if vc == 'Some' else 'None'
+                return None
+            return leaf
         news = [blk for blk in b.blocks if blk.term.kind == 'call' and not blk.cleanup and blk.term.rcallee and strip_generics(blk.term.rcallee) == mnew]
+        rows = {}
+        unknown = []
         for vu in ('None', 'Some'):
             for vc in ('None', 'Some'):
-                blocks = explore(an, tuple_ref_decider(tl, {iu: vu, ic: vc}))
+                ev = Eval(an, make_leaf(vu, vc))
+                rows[(vu, vc)] = ev.explore()
+                unknown += [x for x in ev.unknown if x not in unknown]
+        if unknown or not news:
+            ctx.undecide('R19.1', '%s: the tests on url / connection at line(s) %s are not understood' % (tag, [b.blocks[x].term.line for x in unknown]) if unknown else '%s: no manager constructor call found' % tag)
+            continue
+        class _Live:
+            """the analysis restricted to the definitions inside one row's part of the body"""
+            def __init__(self, an_, live):
+                self._an = an_; self._live = live
+            def defs(self, l):
+                return [d for d in self._an.defs(l) if d[1] in self._live]
+            def single_def(self, l):
+                d = self.defs(l)
+                return d[0] if len(d) == 1 else None
+            def __getattr__(self, k):
+                return getattr(self._an, k)
+        for vu in ('None', 'Some'):
+            for vc in ('None', 'Some'):
+                blocks = rows[(vu, vc)]
                 mk = [x for x in news if x.idx in blocks]
                 errs = sorted({s.rv.j['variant'] for x in blocks for s in b.blocks[x].stmts if s.kind == 'assign' and s.rv.kind == 'agg' and s.rv.j.get('adt') == 'deadpool_redis::config::ConfigError'})
-                row = 'url %s, connection %s' % (vu, vc)
                 if vu == 'Some' and vc == 'Some':
                     ok = not mk and errs == ['UrlAndConnectionSpecified']
                     ctx.ob('R19.1', '%s: both given -> UrlAndConnectionSpecified, no manager constructed' % tag, ok, ctx.where(b), 'managers %d, errors %s' % (len(mk), errs), construct='%s:row:both' % tag)
                     continue
                 ok = len(mk) == 1 and 'UrlAndConnectionSpecified' not in errs
-                src = sources(an, mk[0].term.args[0], deep=True) if mk else set()
+                lan = _Live(an, blocks)
+                src = sources(lan, mk[0].term.args[0], deep=True) if mk else set()
                 flds = {x[1].split('.')[-1] for x in src if x[0] == 'field' and x[1].startswith(cfg + '.')}
-                defaults = any(x[0] == 'call' and x[1].endswith('ConnectionInfo as std::default::Default>::default') for x in src)
+                defaults = any(x[0] == 'call' and (x[1].endswith('ConnectionInfo as std::default::Default>::default') or x[1].endswith('default_connection_info')) for x in src)
                 # `vec![ConnectionInfo::default()]` writes the element through a raw pointer: fall back on the call being on this row's path
                 # before the constructor
                 if not defaults and mk:
-                    defaults = any(blk.idx in blocks and an.dominates(blk.idx, mk[0].idx) for blk in b.blocks if blk.term.kind == 'call' and not blk.cleanup and
-                                   any(n.endswith('ConnectionInfo as std::default::Default>::default') for n in blk.term.callee_names()))
+                    defaults = any(blk.idx in blocks and mk[0].idx in an.reach_after(blk.idx, ('normal',)) for blk in b.blocks if blk.term.kind == 'call' and not blk.cleanup and
+                                   any(n.endswith('ConnectionInfo as std::default::Default>::default') or n.endswith('default_connection_info') for n in blk.term.callee_names()))
                 if vu == 'None' and vc == 'None':
                     ok = ok and defaults and not ({fu, fc} & flds)
                     what = 'neither given -> ConnectionInfo::default()'
@@ -176,10 +258,6 @@ def run(ctx):
             ctx.undecide('R19.1', '%s: Default for Config not found' % tag)
         else:
             ctx.saw(dflt)
-            rows = {}
-            for vu in ('None', 'Some'):
-                for vc in ('None', 'Some'):
-                    rows[(vu, vc)] = explore(an, tuple_ref_decider(tl, {iu: vu, ic: vc}))
             own = set(rows[('None', 'None')]) - set().union(*[set(v) for k, v in rows.items() if k != ('None', 'None')])
             sig_row = address_signature(b, an, own)
             sig_def = address_signature(dflt, prog.an(dflt), None)
@@ -258,6 +336,10 @@ def run(ctx):
                     for sblk in b.blocks:
                         if sblk.term.kind == 'switch' and sblk.term.j.get('variants') and 'on' in sblk.term.j:
                             lf = Place(sblk.term.j['on']).last_field()
+                            if lf is None:
+                                # the matched value was bound by destructuring first (`let Info { protocol, .. } = info; match protocol`)
+                                fs_ = sorted({x[1] for x in sources(an, Operand({'c': sblk.term.j['on']})) if x[0] == 'field'})
+                                lf = (fs_[0].rsplit('.', 1)[0], fs_[0].rsplit('.', 1)[1]) if len(fs_) == 1 else None
                             if lf and any(x[0] == 'agg' and x[1].rsplit('::', 1)[0].split('::')[-1] == sblk.term.j['adt'].split('::')[-1] for x in src):
                                 got.add(lf[1])
                     consts = [x for x in src if x[0] in ('const',) and x[1] not in ('()',)]
@@ -331,8 +413,23 @@ def run(ctx):
             missing = sorted({an.resolve_operand(blk.term.args[0]).strip('"') for blk in b.blocks if blk.term.kind == 'call' and not blk.cleanup and any(n.endswith('de::missing_field') for n in blk.term.callee_names())})
             defaults = sorted({n.split(' as ')[0].lstrip('<').split('::')[-1] for blk in b.blocks if blk.term.kind == 'call' and not blk.cleanup for n in blk.term.callee_names() if n.endswith('as std::default::Default>::default')})
             fields = [f['name'] for f in core.adt('deadpool::managed::config::PoolConfig')['variants'][0]['fields']]
-            ctx.ob('R19.3', 'PoolConfig: only max_size is required; omitted timeouts / queue_mode take their defaults', missing == ['max_size'] and defaults == ['QueueMode', 'Timeouts'] and sorted(fields) == ['max_size', 'queue_mode', 'timeouts'],
-                   ctx.where(b), 'required %s, defaulted %s, fields %s' % (missing, defaults, fields), construct='serde-default:PoolConfig', sites=missing + defaults)
+            # what an omitted section is filled with: Default::default() of its type or a named constructor (`serde(default = "path")`) -
+            # either way it must produce the documented default value
+            dsig = {}
+            for blk in b.blocks:
+                t_ = blk.term
+                if t_.kind == 'call' and not blk.cleanup and t_.rcallee in prog.bodies and t_.dest is not None and t_.dest.is_local() and b.locals[t_.dest.local]['ty'] in (TIMEOUTS_T, QMODE_T):
+                    dsig.setdefault(b.locals[t_.dest.local]['ty'].split('::')[-1], set()).add(ret_signature(prog, t_.rcallee))
+                for st_ in blk.stmts:
+                    # (a private constructor is part of the visitor in the normal form)
+                    if not blk.cleanup and st_.kind == 'assign' and st_.rv.kind == 'agg' and st_.rv.j.get('ak') == 'adt' and st_.rv.j.get('adt') == QMODE_T:
+                        dsig.setdefault('QueueMode', set()).add(('QueueMode', st_.rv.j['variant']))
+                    if not blk.cleanup and st_.kind == 'assign' and st_.rv.kind == 'agg' and st_.rv.j.get('ak') == 'adt' and st_.rv.j.get('adt') == TIMEOUTS_T:
+                        dsig.setdefault('Timeouts', set()).add(('Timeouts', tuple('None' if 'None' in an.resolve_operand(o) else '?' for o in st_.rv.ops)))
+            want_sig = {'Timeouts': {('Timeouts', ('None', 'None', 'None'))}, 'QueueMode': {('QueueMode', 'Fifo')}}
+            defaults = sorted(dsig)
+            ctx.ob('R19.3', 'PoolConfig: only max_size is required; omitted timeouts / queue_mode take their defaults', missing == ['max_size'] and dsig == want_sig and sorted(fields) == ['max_size', 'queue_mode', 'timeouts'],
+                   ctx.where(b), 'required %s, defaulted %s, fields %s' % (missing, {k: sorted(map(str, v)) for k, v in dsig.items()}, fields), construct='serde-default:PoolConfig', sites=missing + defaults)
         # the writing side of the round trip: every field is written on every path of the derived Serialize impl
         # (a `skip_serializing_if` is only harmless when it skips exactly the value the reader defaults to: Option::is_none on that field)
         for ty in ('deadpool::managed::config::PoolConfig', 'deadpool::managed::config::Timeouts'):
@@ -386,8 +483,8 @@ def run(ctx):
             if len(aggs) == 1:
                 f = dict(zip(aggs[0].rv.j['fields'], aggs[0].rv.ops))
                 okp = any(x[0] == 'arg' for x in sources(pan, f['max_size'])) and \
-                    any(x[0] == 'call' and 'Timeouts as std::default::Default' in x[1] for x in sources(pan, f['timeouts'])) and \
-                    any(x[0] == 'call' and 'QueueMode as std::default::Default' in x[1] for x in sources(pan, f['queue_mode']))
+                    operand_signature(prog, pn, pan, f['timeouts']) == ('Timeouts', ('None', 'None', 'None')) and \
+                    operand_signature(prog, pn, pan, f['queue_mode']) == ('QueueMode', 'Fifo')
             ctx.ob('R19.3', 'PoolConfig::new uses the same defaults', okp, ctx.where(pn), '', construct='default:PoolConfig::new')
 
     ctx.not_decided += ['value-level round trips through serde / the config crate (durations over the full secs/nanos range, string-typed sources): library behaviour over a value space; only the structural clause is claimed']
